@@ -294,14 +294,31 @@ def contrastive_idxs(ctx):
 
     lib["jax.random.choice"] = choice
 
-    def filter_vmap(f):
-        def mapped(keys, idxs, bsz, ncon):
-            rec["vmapped"] = dict(keys=keys, idxs=idxs)
-            # generic row i: key = keys[i], idx = arange(B)[i] = i; non-array arguments are broadcast
-            return f(("key_of_row", keys, i), SV(i), bsz, ncon)
-        return mapped
+    def vmap_model(broadcast_non_arrays):
+        def vm_(f, **kw):
+            if kw:
+                raise Untranslatable("vmap with in_axes / out_axes in _get_contrastive_idxs")
 
-    lib["equinox.filter_vmap"] = filter_vmap
+            def mapped(*args):
+                # generic row i: key = keys[i], idx = arange(B)[i] = i; eqx.filter_vmap broadcasts non-array arguments
+                row = []
+                for a in args:
+                    if isinstance(a, KeysV):
+                        rec.setdefault("vmapped", {})["keys"] = a
+                        row.append(("key_of_row", a, i))
+                    elif isinstance(a, ArangeV):
+                        rec.setdefault("vmapped", {})["idxs"] = a
+                        row.append(SV(i))
+                    elif broadcast_non_arrays:
+                        row.append(a)
+                    else:
+                        raise Untranslatable("jax.vmap over a non-array argument")
+                return f(*row)
+            return mapped
+        return vm_
+
+    lib["equinox.filter_vmap"] = vmap_model(True)
+    lib["jax.vmap"] = vmap_model(False)
     fn = it.repo_function(fnq)
     paths = it.explore(lambda: fn(key, SV(B), SV(nc)))
     pa = single(paths, ctx, "C17/_get_contrastive_idxs/struct/straight_line", props, fnq)
